@@ -193,6 +193,7 @@ func runC13(c *Ctx) {
 		nameFld := p.Field("types", "ProcessState", "Name")
 		c.Check(p.Deep(StoreTo("state.Name", nameFld)).May(f), r2, "rename:state-name", FirstPos(p, f), "state name updated", "the rename function does not update the name in the state record")
 		s.checkRenameKeepsRecord(c, r2, f)
+		s.checkRenameUnregistersFirst(c, r2, f)
 		// the log moves with its content: nothing reached from the rename replaces or clears the buffer's lines
 		fBuf := p.Field("pclog", "ProcessLogBuffer", "buffer")
 		c.Check(!p.Deep(StoreTo("buffer", fBuf)).May(f), r2, "rename:log-content-kept", FirstPos(p, f), "the collected log survives the rename", "the rename reaches a store into the log buffer's line slice (for instance through Close of the buffer it re-registers): every surviving replica loses its collected log when a scale request changes the name width")
@@ -812,4 +813,56 @@ func (s *Sel) isRenameFn(f *ssa.Function) bool {
 		}
 	})
 	return minimal
+}
+
+// checkRenameUnregistersFirst (C08, C13): the registry of running instances is keyed by the instance's own name, and
+// the removal looks the instance up under that name - so the rename removes the instance from the registry before it
+// changes the instance's name, and registers it again afterwards.
+func (s *Sel) checkRenameUnregistersFirst(c *Ctx, rule string, f *ssa.Function) {
+	p := c.P
+	del := p.Deep(MapDeleteOn("delete runningProcesses", s.FRunning))
+	ins := p.Deep(MapUpdateOn("insert runningProcesses", s.FRunning))
+	// calls that change the instance's replica name (a store to ReplicaName reached through Process.procConf)
+	setName := p.Deep(Site{Name: "instance.ReplicaName =", Instr: func(in ssa.Instruction) bool {
+		st, ok := in.(*ssa.Store)
+		if !ok {
+			return false
+		}
+		ap := PathOf(st.Addr)
+		return ap.LastField() == s.FReplicaName && ap.HasField(s.FProcConf)
+	}})
+	var renames []ssa.Instruction
+	AllInstrs(f, func(in ssa.Instruction) {
+		if call, ok := in.(*ssa.Call); ok && setName.MayAt(call) && !del.MayAt(call) {
+			renames = append(renames, in)
+		}
+	})
+	if len(renames) == 0 {
+		c.Bad(rule, "rename:instance-name", FirstPos(p, f), "the rename function does not change the name of the registered instance")
+		return
+	}
+	// (the removal is conditional on the registered value being this instance: a call that may delete counts)
+	mayDel := func(in ssa.Instruction) bool {
+		switch in.(type) {
+		case *ssa.Go, *ssa.Defer:
+			return false
+		}
+		return del.MayAt(in)
+	}
+	okBefore := true
+	vis := Reach(Entry(f), mayDel, nil)
+	for _, rn := range renames {
+		if vis[rn] {
+			okBefore = false
+		}
+	}
+	okAfter := true
+	for _, rn := range renames {
+		for x := range Reach([]Pt{after(rn)}, func(in ssa.Instruction) bool { return ins.MayAt(in) }, nil) {
+			if _, isRet := x.(*ssa.Return); isRet {
+				okAfter = false
+			}
+		}
+	}
+	c.Check(okBefore && okAfter, rule, "rename:unregister-rename-register", p.InstrPos(renames[0]), "removed under the old name, renamed, registered under the new name", "the instance's name is changed before it is removed from the registry of running instances (the removal then looks under the new name and deletes nothing): a stale entry under the former name keeps pointing at the live instance, so stop/restart requests naming a process that no longer exists act on it")
 }
